@@ -423,16 +423,119 @@ func c09AliasProgram(i int) *Program {
 	}
 }
 
+// ---- enumerated: an array shrunk by pop / popfirst and then extended past its end (the gap is null, whatever
+// the slots held before), and container literals built from variables (scalars are copied in)
+
+func c09EnumPrograms() []*Program {
+	var out []*Program
+	js := func(e Expr) Expr { return CallE(V("json"), e) }
+	a := Expr(V("a"))
+	for L := 2; L <= 6; L++ {
+		for q := 0; q <= 2; q++ {
+			for r := 1; r <= 4 && r <= L+q; r++ {
+				for rk := 0; rk < 3; rk++ {
+					for g := 1; g <= 3; g++ {
+						var items []Expr
+						for i := 1; i <= L; i++ {
+							items = append(items, N(strconv.Itoa(i)))
+						}
+						body := []Stmt{asg(a, Arr(items...))}
+						for i := 0; i < q; i++ {
+							body = append(body, ES(Meth(a, "push", N(strconv.Itoa(50+i)))))
+						}
+						for i := 0; i < r; i++ {
+							m := "pop"
+							if rk == 1 || (rk == 2 && i%2 == 1) {
+								m = "popfirst"
+							}
+							body = append(body, ES(Meth(a, m)))
+						}
+						ln := L + q - r
+						body = append(body, Pr(js(a), Meth(a, "length")),
+							asg(Idx(a, N(strconv.Itoa(ln+g))), N("99")), Pr(js(a), Meth(a, "length")),
+							asg(Idx(a, N(strconv.Itoa(ln+g+2))), N("98")), Pr(js(a), Meth(a, "length")),
+							ES(Meth(a, "pop")), ES(Meth(a, "pop")), ES(Meth(a, "pop")), asg(Idx(a, N(strconv.Itoa(ln+g+1))), S("again")), Pr(js(a)))
+						out = append(out, &Program{Items: []any{&Rule{Kind: "BEGIN", Body: &Block{Stmts: body}}}})
+					}
+				}
+			}
+		}
+	}
+	// container literals built from variables / members / loop variables
+	vals := []Expr{S("ann"), N("5"), &BoolLit{V: true}, &NullLit{}, Arr(N("1")), obj1("k", N("1"))}
+	news := []Expr{S("bob"), N("6"), &BoolLit{V: false}, S("was-null"), Arr(N("2")), obj1("k", N("2"))}
+	lits := []func(x Expr) (Expr, Expr){
+		func(x Expr) (Expr, Expr) { return obj1("who", x), Mem(V("rec"), "who") },
+		func(x Expr) (Expr, Expr) { return Arr(x), Idx(V("rec"), N("0")) },
+		func(x Expr) (Expr, Expr) { return obj1("o", obj1("w", x)), Mem(Mem(V("rec"), "o"), "w") },
+		func(x Expr) (Expr, Expr) { return Arr(N("0"), Arr(x)), Idx(Idx(V("rec"), N("1")), N("0")) },
+		func(x Expr) (Expr, Expr) {
+			return &ObjectLit{Keys: []string{"p", "q"}, Quoted: []bool{false, true}, Vals: []Expr{x, x}}, Mem(V("rec"), "q")
+		},
+	}
+	for vi, v := range vals {
+		for li, lit := range lits {
+			for src := 0; src < 4; src++ {
+				var setup []Stmt
+				var x Expr
+				switch src {
+				case 0:
+					setup, x = []Stmt{asg(V("name"), v)}, V("name")
+				case 1:
+					setup, x = []Stmt{asg(Mem(V("holder"), "f"), v)}, Mem(V("holder"), "f")
+				case 2:
+					setup, x = []Stmt{asg(V("arr"), Arr(v, N("0")))}, Idx(V("arr"), N("0"))
+				default:
+					setup, x = []Stmt{asg(Mem(Mem(V("deep"), "a"), "b"), v)}, Mem(Mem(V("deep"), "a"), "b")
+				}
+				le, slot := lit(x)
+				body := append(setup, asg(V("rec"), le), Pr(S("built"), js(V("rec")), js(x)),
+					asg(x, news[vi]), Pr(S("source-stored"), js(V("rec")), js(x)),
+					asg(slot, S("eve")), Pr(S("member-stored"), js(V("rec")), js(x)))
+				if vi == 0 || vi == 1 {
+					body = append(body, ES(&Assign{Op: "+=", L: x, R: news[vi]}), Pr(S("source-compound"), js(V("rec")), js(x)))
+				}
+				_ = li
+				out = append(out, &Program{Items: []any{&Rule{Kind: "BEGIN", Body: &Block{Stmts: body}}}})
+			}
+		}
+	}
+	// literals built inside loops from the loop variable
+	for _, it := range []Expr{Arr(S("x"), S("y"), S("z")), Arr(N("1"), N("2"), N("3")), S("abc"), &ObjectLit{Keys: []string{"p", "q"}, Quoted: []bool{false, false}, Vals: []Expr{S("u"), S("v")}}} {
+		for li := 0; li < 2; li++ {
+			var lit Expr = obj1("key", V("k"))
+			if li == 1 {
+				lit = Arr(V("k"), V("k"))
+			}
+			body := []Stmt{asg(V("list"), Arr()), &ForIn{V: "k", It: it, Body: Blk(ES(Meth(V("list"), "push", lit)))}, Pr(js(V("list"))),
+				asg(V("n"), N("0")), &ForIn{V: "k", V2: "w", It: it, Body: Blk(asg(Idx(V("byidx"), V("n")), obj1("pair", Arr(V("k"), V("w")))), ES(&IncDec{Op: "++", X: V("n")}))}, Pr(js(V("byidx")))}
+			out = append(out, &Program{Items: []any{&Rule{Kind: "BEGIN", Body: &Block{Stmts: body}}}})
+		}
+	}
+	return out
+}
+
+var c09Enum = c09EnumPrograms()
+
 func c09Cases(tier string) int {
 	if tier == "thorough" {
-		return len(c09AliasForms) + 1000000 + 600000
+		return len(c09AliasForms) + len(c09Enum) + 1000000 + 600000
 	}
-	return len(c09AliasForms) + 20000 + 20000
+	return len(c09AliasForms) + len(c09Enum) + 20000 + 20000
 }
 
 func c09Run(c *Case) {
 	i := c.Idx
 	na := len(c09AliasForms)
+	if i >= na && i < na+len(c09Enum) {
+		c.NonTrivial(fmt.Sprintf("enum:%d", i-na))
+		c.Count("enumerated_shrink_extend_and_literal_copy_programs")
+		m2(c, &M2Case{Prog: c09Enum[i-na], Desc: "enumerated store program"})
+		return
+	}
+	if i >= na {
+		i -= len(c09Enum)
+	}
 	nh := 20000
 	if c.Tier == "thorough" {
 		nh = 1000000
